@@ -127,7 +127,7 @@ class Pair(RawPair):
         self.stats = collections.Counter()
         self.max_alive = 0
         # HEADER_TABLE_SIZE announced by that side: 0 settled, 1 in flight, 2 received by the peer, whose
-        # encoder has not emitted a header block since (hpack.Encoder mishandles a second change then)
+        # encoder has not emitted a header block since (a further change then has to be coalesced, F36)
         self.hts = {'c': 0, 's': 0}
         self.max_data = 70000
         self.cl = {}               # (side, sid) -> bytes of the declared content-length still to be sent
@@ -800,10 +800,8 @@ def gen_call(ch, p, side, allow_close, allow_bad):
             k = ch.pick(keys)
             changes[k] = ch.pick(SETTING_VALUES[k])
         if 1 in changes and p.hts[side]:
-            p.r.excluded['second-table-size-change-before-next-block-hpack'] += 1
-            del changes[1]
-            if not changes:
-                return
+            # a further HEADER_TABLE_SIZE change before the peer's encoder has emitted a block (F36)
+            p.stats['several-table-size-changes-before-next-block'] += 1
 
         def ok(o, base):
             p.outstanding[side] += 1
